@@ -281,7 +281,11 @@ def same_value(a: Any, b: Any) -> bool:
         # infinite: only the class is compared (the library drops finite factors of an infinity)
         return (na.has(sp.oo) or na.has(-sp.oo)) and (nb.has(sp.oo) or nb.has(-sp.oo))
     try:
-        return values.close(values.mpc(na), values.mpc(nb), 1e-20)
+        # 15-digit Floats in the input (or in the returned expression) round when multiplied
+        tol = 1e-12 if sp.sympify(a).atoms(sp.Float) or sp.sympify(b).atoms(sp.Float) or any(
+            sp.sympify(q.scale_factor).atoms(sp.Float) for q in sp.sympify(a).atoms(SymQuantity)) \
+            else 1e-20
+        return values.close(values.mpc(na), values.mpc(nb), tol)
     except Exception:
         return False
 
